@@ -212,6 +212,17 @@ def run(pid, tier, seed, replay=None):
                       invariants=["TypeOK", "InvPendingIsStack", "InvIdleClean", "InvOnceWhileCached",
                                   "InvInputsOnce", "InvNoSpuriousRecursion", "InvExcClass",
                                   "InvReturnedDone", "InvCausal"])
+        # liveness of the protocol under weak fairness: every request comes back to the user
+        live_cfg = (common.SPEC / "MC_Engine_live.cfg").read_text()
+        if not quick:
+            live_cfg = live_cfg.replace("MaxRequests = 1", "MaxRequests = 2")
+        res_l = common.run_tlc("MC_Engine", live_cfg, timeout=3000)
+        if "No error has been found" not in res_l.out:
+            raise MachineryError("liveness (MC_Engine_live) failed:\n" + res_l.out[-3000:])
+        stats["states"] += res_l.distinct
+        stats["transitions"] += res_l.generated
+        mode_a["liveness"] = dict(property="EveryRequestReturns", fairness="WF_evars(ENext)",
+                                  distinct_states=res_l.distinct, wall_s=round(res_l.wall, 1))
         # ---- Mode B: schedules from Session.tla -------------------------------
         if pid == "C10":
             pairs2 = [(0, 0), (0, 1), (1, 1)]
@@ -236,7 +247,7 @@ def run(pid, tier, seed, replay=None):
                     continue
                 inst = draw_instance(rng, nb=3, N=3, hermitian_mode=hm)
                 add("simulated-L6" + ("" if hm else "-nonhermitian"), inst, concretise(s, inst), ncomp=2,
-                    input_kind="lazy" if n_ % 3 else "dict")
+                    input_kind="lazy" if n_ % 3 else "dict" if n_ % 2 else "data_series")
         elif pid == "C11":
             n_inst = 3 if quick else 9
             for q in range(n_inst):
